@@ -340,6 +340,62 @@ def unary_job(arg):
     return rep
 
 
+TWOKEEPS_SRC = """import dds
+
+
+def shift(a, b=0):
+    return ("shift", a, b)
+
+
+def several():
+    p1 = dds.keep("/c13t/p1", shift, 1)
+    p2 = dds.keep("/c13t/p2", shift, 2)
+    p3 = dds.keep("/c13t/p3", shift, 1, b=5)
+    p4 = dds.keep("/c13t/p4", shift, a=2)
+    p5 = dds.keep("/c13t/p5", shift, 1, 0)
+    return (p1, p2, p3, p4, p5)
+"""
+
+
+def twokeeps_job(arg):
+    """One function kept several times in one evaluation, every call written with literals only: each call returns what plain
+    execution returns; calls with the same binding share a signature, calls with different bindings do not."""
+    scratch, idx = arg
+    import dds
+    from dds import _api
+    from vp.capstore import CapturingStore
+
+    rep = core.Report("C13")
+    d = os.path.join(scratch, "c13t_%d" % idx)
+    os.makedirs(os.path.join(d, "c13tpkg%d" % idx))
+    open(os.path.join(d, "c13tpkg%d" % idx, "__init__.py"), "w").write("")
+    open(os.path.join(d, "c13tpkg%d" % idx, "m.py"), "w").write(TWOKEEPS_SRC)
+    sys.path.insert(0, d)
+    mod = importlib.import_module("c13tpkg%d.m" % idx)
+    dds.accept_module("c13tpkg%d" % idx)
+    dds.set_store("memory")
+    cs = CapturingStore(_api._store_var)
+    dds.set_store(cs)
+    want = (("shift", 1, 0), ("shift", 2, 0), ("shift", 1, 5), ("shift", 2, 0), ("shift", 1, 0))
+    for rnd in (0, 1):
+        cs.clear()
+        rep.evaluations += 1
+        rep.count("calls_source", 5)
+        try:
+            got = dds.eval(mod.several)
+        except BaseException as e:
+            rep.violate("one function kept five times with literal arguments in one evaluation: raised %s: %s" % (type(e).__name__, str(e)[:120]), {"twokeeps": True}, mechanism="keep-raised")
+            continue
+        if got != want:
+            rep.violate("one function kept five times with literal arguments in one evaluation returned %r, plain execution gives %r" % (got, want), {"twokeeps": True}, mechanism="same-function-literal-keeps-collide")
+        sg = cs.last_sync() or {}
+        sigs = [sg.get("/c13t/p%d" % i) for i in (1, 2, 3, 4, 5)]
+        if None not in sigs and not (sigs[0] == sigs[4] and sigs[1] == sigs[3] and len(set(sigs)) == 3):
+            rep.violate("signatures of five literal kept calls of one function (bindings (1,0) (2,0) (1,5) (2,0) (1,0)): %r" % [x[:8] for x in sigs], {"twokeeps": True}, mechanism="same-function-literal-keeps-collide")
+    rep.nontriv(("c13twokeeps", idx))
+    return rep
+
+
 def lookup(table):
     return ("lookup", sorted(table.items(), key=repr))
 
@@ -576,7 +632,7 @@ def run(tier, seed):
                 bs = list(dict.fromkeys(dflt + allb[:k]))
             jobs.append((shape, idx, bs, scratch))
         results = core.fork_map(job, jobs, timeout=600)
-        nres = core.fork_map(lambda j: {"c": class_job, "n": nested_job, "u": unary_job, "l": layout_job, "d": dictkey_job}[j[0]](j[1]), [("n", (scratch, 0)), ("c", (scratch, 1)), ("u", (scratch, 2)), ("l", (scratch, 3)), ("d", (scratch, 4))], timeout=600)
+        nres = core.fork_map(lambda j: {"c": class_job, "n": nested_job, "u": unary_job, "l": layout_job, "d": dictkey_job, "t": twokeeps_job}[j[0]](j[1]), [("n", (scratch, 0)), ("c", (scratch, 1)), ("u", (scratch, 2)), ("l", (scratch, 3)), ("d", (scratch, 4)), ("t", (scratch, 5))], timeout=600)
     for r in nres:
         if isinstance(r, core.JobFailed):
             rep.inconclusive.append("nested job: %r" % (r,))
